@@ -244,6 +244,9 @@ Modules/Caps.vos Modules/Caps.vok Modules/Caps.required_vos: Modules/Caps.v Gen/
 Modules/CapsProofs.vo Modules/CapsProofs.glob Modules/CapsProofs.v.beautified Modules/CapsProofs.required_vo: Modules/CapsProofs.v Gen/ModCaps.vo Modules/Caps.vo
 Modules/CapsProofs.vio: Modules/CapsProofs.v Gen/ModCaps.vio Modules/Caps.vio
 Modules/CapsProofs.vos Modules/CapsProofs.vok Modules/CapsProofs.required_vos: Modules/CapsProofs.v Gen/ModCaps.vos Modules/Caps.vos
+Modules/ModCheck.vo Modules/ModCheck.glob Modules/ModCheck.v.beautified Modules/ModCheck.required_vo: Modules/ModCheck.v Modules/Rva.vo
+Modules/ModCheck.vio: Modules/ModCheck.v Modules/Rva.vio
+Modules/ModCheck.vos Modules/ModCheck.vok Modules/ModCheck.required_vos: Modules/ModCheck.v Modules/Rva.vos
 Modules/Rva.vo Modules/Rva.glob Modules/Rva.v.beautified Modules/Rva.required_vo: Modules/Rva.v 
 Modules/Rva.vio: Modules/Rva.v 
 Modules/Rva.vos Modules/Rva.vok Modules/Rva.required_vos: Modules/Rva.v 
